@@ -376,6 +376,47 @@ theorem C14_composite_eviction_invisible (srcs : List CompSrc) (size : Nat) (aft
   rw [h, h2]
   exact finalize_collect_pv _ _
 
+/-- **Composite: neither the per-segment eviction nor the merge-time trim is visible.**  The
+segments evict (`collectSegComposite`) and `merge_fruits` trims whenever more than `2 * size`
+entries are held (`compMergeFruits`); for every partition into any number of segments the returned
+page is the direct computation over all documents. -/
+theorem C14_composite_merge_fruits_eq_evalAggPV (srcs : List CompSrc) (size : Nat) (after : Option Int) (sub : Req)
+    (parts : List (List Doc)) :
+    finalize (M := M) (.composite srcs size after sub)
+        ((parts.map (collectSegComposite (M := M) srcs size after sub)).foldl
+          (compMergeFruits (entryMerge (merge (M := M) sub)) size after) KMap.empty)
+      = evalAggPV M (.composite srcs size after sub) parts.flatten := by
+  have h := composite_lazy_trim_invisible (M := M) (sub := sub)
+    (fun m => decide (m.entries.length > 2 * size)) srcs size after parts
+  have h2 : (parts.map (collect (M := M) (.composite srcs size after sub))).foldl
+      (merge (.composite srcs size after sub)) (empty (.composite srcs size after sub))
+      = collect (.composite srcs size after sub) parts.flatten :=
+    fold_parts (merge (.composite srcs size after sub)) (empty (.composite srcs size after sub)) (merge_assoc _)
+      (merge_comm _) (empty_merge _) (collect (.composite srcs size after sub)) (collect_nil _) (collect_append _) parts
+  rw [compMergeFruits_eq_when]
+  show finalize (M := M) (.composite srcs size after sub)
+      ((parts.map (fun p => compTrim size after (collect (M := M) (.composite srcs size after sub) p))).foldl _ _) = _
+  rw [h, h2]
+  exact finalize_collect_pv _ _
+
+/-- the same for ANY trimming schedule at merge time (trim decided by an arbitrary predicate) -/
+theorem C14_composite_any_trim_schedule {sub : Req} (dec : KMap (Nat × Inter M sub) → Bool) (srcs : List CompSrc) (size : Nat)
+    (after : Option Int) (parts : List (List Doc)) :
+    finalize (M := M) (.composite srcs size after sub)
+        ((parts.map (collectSegComposite (M := M) srcs size after sub)).foldl
+          (compMergeWhen dec (entryMerge (merge (M := M) sub)) size after) KMap.empty)
+      = evalAggPV M (.composite srcs size after sub) parts.flatten := by
+  have h := composite_lazy_trim_invisible (M := M) (sub := sub) dec srcs size after parts
+  have h2 : (parts.map (collect (M := M) (.composite srcs size after sub))).foldl
+      (merge (.composite srcs size after sub)) (empty (.composite srcs size after sub))
+      = collect (.composite srcs size after sub) parts.flatten :=
+    fold_parts (merge (.composite srcs size after sub)) (empty (.composite srcs size after sub)) (merge_assoc _)
+      (merge_comm _) (empty_merge _) (collect (.composite srcs size after sub)) (collect_nil _) (collect_append _) parts
+  show finalize (M := M) (.composite srcs size after sub)
+      ((parts.map (fun p => compTrim size after (collect (M := M) (.composite srcs size after sub) p))).foldl _ _) = _
+  rw [h, h2]
+  exact finalize_collect_pv _ _
+
 /-- the algebraic core: trimming the operands first does not change the trimmed merge -/
 theorem C14_composite_trim_merge {V : Type} (f : (Nat × V) → (Nat × V) → (Nat × V)) (size : Nat)
     (after : Option Int) (a b : KMap (Nat × V)) (ha : Supp a) (hb : Supp b) :
@@ -542,6 +583,11 @@ example : finalize (M := Int) (.composite [⟨0, 5, false⟩] 1 Option.none .non
     (([[[(0, [3])], [(0, [1])]], [[(0, [2])], [(0, [1])]]].map
         (collectSegComposite (M := Int) [⟨0, 5, false⟩] 1 Option.none .none)).foldl
       (merge (.composite [⟨0, 5, false⟩] 1 Option.none .none)) (empty _)) = [(1, 2, ())] := by decide +kernel
+/-- three segments with page size 1 and values 3,2,1 / 5,4 / 0: the merge-time trim fires (3 > 2·1 entries) -/
+example : finalize (M := Int) (.composite [⟨0, 9, false⟩] 1 Option.none .none)
+    (([[[(0, [3, 2])]], [[(0, [5, 4])]], [[(0, [0])]]].map
+        (collectSegComposite (M := Int) [⟨0, 9, false⟩] 1 Option.none .none)).foldl
+      (compMergeFruits (entryMerge (merge (M := Int) .none)) 1 Option.none) KMap.empty) = [(0, 1, ())] := by decide +kernel
 example : [0, 10, 20].Pairwise (fun a b : Int => a < b) := by decide
 example : ([1, 2, 3] : List Int).Nodup ∧ ∀ d ∈ exTDocs, ∀ k ∈ termKeys ⟨0, Option.none, 2, 2, 1, .countDesc⟩ d, k ∈ [1, 2, 3] := by
   decide
